@@ -714,7 +714,7 @@ func demoClosureKey(w *world) bool {
 func TestC03(t *testing.T) {
 	rec := ev.New("C03")
 	defer Finish(t, rec)
-	rec.Rule("rapid state machine (t.Repeat) of up to 200 primitive steps on one table: assignments/removals through Table.Set, Table.Reset, Runtime.SetTableCheck and SetIndex, lookups, Len, traversals with Next from nil, traversals whose body assigns or clears EXISTING fields, bulk append/remove-tail and insert-many-then-remove patterns, over a pool of 230 keys (ints -2..70, large ints, floats with integer value, other floats, NaN, strings of 0..14 bytes incl. 7/8-byte and NUL-containing ones, booleans, tables, Go functions, closures of distinct function expressions). Oracle: Go map with the manual's key normalisation; after EVERY step every pool key reads as in the model, Len is a border, a full traversal returns exactly the model's pairs once each, VerifCheckInvariants is nil. Every history is then replayed as Lua code (t[k]=v, rawset/rawget, next, pairs, #t; half of them also on a table with logging __index/__newindex) and checked against the same model. Plus the exhaustive pairwise law rawequal(a,b) <=> (t[a]=x makes t[b]==x) in small, large and grown tables, Go and Lua. Non-trivial history: at least one growth of the array part that migrates keys out of the hash part AND (at least one effective removal followed by a traversal, or a traversal with an update); distinct by hash of the action list. Non-trivial pair: equal values of different spelling, or values of different types.")
+	rec.Rule("rapid state machine (t.Repeat) of up to 200 primitive steps on one table: assignments/removals through Table.Set, Table.Reset, Runtime.SetTableCheck and SetIndex, lookups, Len, traversals with Next from nil, traversals whose body assigns or clears EXISTING fields, bulk append/remove-tail and insert-many-then-remove patterns, over a pool of 230 keys (ints -2..70, large ints, floats with integer value, other floats, NaN, strings of 0..14 bytes incl. 7/8-byte and NUL-containing ones, booleans, tables, Go functions, closures of distinct function expressions). Oracle: Go map with the manual's key normalisation; after EVERY step every pool key reads as in the model, Len is a border, a full traversal returns exactly the model's pairs once each, VerifCheckInvariants is nil. Every history is then replayed as Lua code (t[k]=v, rawset/rawget, next, pairs, #t; half of them also on a table with logging __index/__newindex) and checked against the same model. Plus the exhaustive pairwise law rawequal(a,b) <=> (t[a]=x makes t[b]==x) in small, large and grown tables, Go and Lua. Non-trivial history: at least one growth of the array part that migrates keys out of the hash part AND (at least one effective removal followed by a traversal, or a traversal with an update); distinct by hash of the action list. Non-trivial pair: equal values of different spelling, or values of different types. Plus rapid chains of 2-4 tables linked by __index/__newindex tables (ending in nothing or a logging function), keys raw-present or absent at each level, <= 10 reads/assignments/removals through the first table, against the manual's rule applied at every table of the chain; non-trivial: a metamethod was consulted at >= 2 tables.")
 	rec.Assume("two closures created from one function expression may or may not be equal (manual §3.4.4); only the consistency of rawequal with table indexing is required for them, and they are never used as keys in histories")
 	rec.Assume("a key cleared during a traversal before it is reached must not be returned (next returns an index of the table and its associated value)")
 	rec.Assume("next is only ever called with nil or the key returned by the previous call; no key is inserted during a traversal")
@@ -740,6 +740,14 @@ func TestC03(t *testing.T) {
 		case "panic":
 			// the panic happened while the runtime was created (above) or inside the
 			// harness; reaching this point means a runtime can be created
+		case "chain":
+			var c chainCase
+			if err := json.Unmarshal(rf.Case, &c); err != nil {
+				t.Fatal(err)
+			}
+			if msg, _ := checkChain(c); msg != "" {
+				rec.Violation("chain", c, msg)
+			}
 		case "pair":
 			var c pairCase
 			if err := json.Unmarshal(rf.Case, &c); err != nil {
@@ -778,6 +786,23 @@ func TestC03(t *testing.T) {
 	rec.Set("phase_pairs_seconds", time.Since(t0).Seconds())
 	defer func(t1 time.Time) { rec.Set("phase_histories_seconds", time.Since(t1).Seconds()) }(time.Now())
 	if rec.NViolations() > 0 {
+		return
+	}
+
+	// (d) chains of __index/__newindex tables
+	if !RunRapid(rec, "C03/metamethod-chains", rec.Pick(1500, 30000), 3, func(t *rapid.T) {
+		c := genChain(t)
+		msg, consulted := checkChain(c)
+		rec.Eval()
+		rec.Class("chain")
+		if consulted >= 2 {
+			rec.Class("chain:metamethod-consulted-at-2+-tables")
+			rec.NonTrivial(fmt.Sprint("chain|", c))
+		}
+		if msg != "" {
+			FailCase(t, "chain", c, "%s", msg)
+		}
+	}) {
 		return
 	}
 
